@@ -659,15 +659,21 @@ def list_comp(ex, node):
         n, elem = it
         # evaluate the element for an arbitrary index (raise obligations for an arbitrary element)
         i = z3.Int(ex.fresh_name('ci'))
+        nfresh0 = ex.st.nfresh
         ex.st.pc.append(z3.And(i >= 0, i < n))
         mark = len(ex.st.pc)
         ex.assign(g.target, elem(i), node)
+        filt = []
         for cnd in g.ifs:
             # a filter that is decided by the element KIND alone (e.g. isinstance(x, tuple) over a list of tuples)
-            # keeps every element; any other filter is outside the model
+            # keeps every element; any other filter makes the result a SUB-SEQUENCE (below)
             tv = ex.ev(cnd)
-            if not (isinstance(tv, VBool) and tv.concrete() is True):
-                ex.limit('filtering comprehension over a symbolic sequence', node)
+            if isinstance(tv, VBool) and tv.concrete() is True:
+                continue
+            t = ex.truth(tv)
+            if t is True:
+                continue
+            filt.append(z3.BoolVal(False) if t is False else t)
         v = ex.ev(node.elt)
         if not ex.is_unresolved(v):
             v = ex.res(v)
@@ -677,6 +683,41 @@ def list_comp(ex, node):
         r = z3.Const(ex.fresh_name('comp'), z3.SeqSort(kind_sort(k)))
         extra = ex.st.pc[mark:]
         del ex.st.pc[mark - 1:]
+        if filt:
+            # [elt for x in it if cond]: every element of the result is the elt of SOME input position that passes the
+            # filter, and there are at most n of them (order and completeness are forgotten: over-approximation).  The
+            # symbols created while the element was evaluated belong to that position: bound with it.
+            ex.assume(z3.And(z3.Length(r) >= 0, z3.Length(r) <= n))
+            local = {}
+
+            def collect(e, seen=set()):
+                stack = [e]
+                while stack:
+                    x = stack.pop()
+                    if x.get_id() in seen:
+                        continue
+                    seen.add(x.get_id())
+                    if z3.is_quantifier(x):
+                        stack.append(x.body())
+                        continue
+                    if z3.is_const(x) and x.decl().kind() == z3.Z3_OP_UNINTERPRETED:
+                        nm = x.decl().name()
+                        if '!' in nm:
+                            try:
+                                if int(nm.rsplit('!', 1)[1]) > nfresh0:
+                                    local[nm] = x
+                            except ValueError:
+                                pass
+                    stack.extend(x.children())
+            for e in list(extra) + list(filt) + [body]:
+                collect(e)
+            j = z3.Int(ex.fresh_name('cj'))
+            inner = z3.And(i >= 0, i < n, *extra, *filt, r[j] == body)
+            ex.assume(z3.ForAll([j], z3.Implies(z3.And(j >= 0, j < z3.Length(r)),
+                                                z3.Exists([i] + [c for c in local.values() if not z3.eq(c, i)], inner))))
+            ex.used_assumptions.add('A-BUILTIN: a filtering comprehension over a symbolic sequence yields a sub-sequence '
+                                    '(every element stems from a position that passes the filter; order/completeness forgotten)')
+            return ex.alloc(ListCell(r, k))
         ex.assume(z3.Length(r) == n)
         hyp = z3.And(i >= 0, i < n, *extra) if extra else z3.And(i >= 0, i < n)
         ex.assume(z3.ForAll([i], z3.Implies(hyp, r[i] == body)))
